@@ -128,7 +128,16 @@ func checkContent(c *hx.Case, want *ast.Body, body hcl.Body, path string) {
 	if len(content.Blocks) != len(wb) {
 		c.Failf("content-block-count", "%s: Content returned %d blocks, wrote %d", path, len(content.Blocks), len(wb))
 	}
-	// per type, blocks appear in source order
+	// the block sequence is ordered: Content returns the blocks in the order written, across types
+	for i, bl := range wb {
+		if content.Blocks[i].Type != bl.Type {
+			var got []string
+			for _, b := range content.Blocks {
+				got = append(got, b.Type)
+			}
+			c.Failf("content-block-order", "%s: Content returns the block types %q; block %d was written as %q", path, got, i, bl.Type)
+		}
+	}
 	byType := map[string][]*hcl.Block{}
 	for _, b := range content.Blocks {
 		byType[b.Type] = append(byType[b.Type], b)
